@@ -658,7 +658,12 @@ func (in *Interp) obligation(st *State, id, kind, site string, cond *Term, msg s
 						break
 					}
 					in.Res.OblQ++
-					r2, m2 := in.Sol.ModelWith(st.Inputs, cons...)
+					var r2 SatRes
+					var m2 map[string]string
+					in.Sol.Quick(1500, func() { r2, m2 = in.Sol.ModelWith(st.Inputs, cons...) })
+					if r2 == Unknown {
+						break // not worth more time: these candidates are optional
+					}
 					if r2 != Sat {
 						continue
 					}
